@@ -262,7 +262,8 @@ impl<F: Field> SparsePolynomial<F> {
                         .or_insert_with(|| *self_coeff * other_coeff);
                 }
             }
-            Self::from_coefficients_vec(result.into_iter().collect())
+            // terms whose contributions cancel must not be kept as explicit zeros
+            Self::from_coefficients_vec(result.into_iter().filter(|(_, c)| !c.is_zero()).collect())
         }
     }
 
